@@ -5,7 +5,7 @@ import PttVerif.Model.C18
 C18 (group 3) — models of
   types/utils.go   ReadLine (on a bufio.Reader over a byte string)
   cmsys/fnv_hash.go, cmsys/string.go   fnv1a32StrCase, StringHash, StringHashWithHashBits
-  cmsys/string.go  StripNoneBig5 (in place), DBCSNextStatus, DBCSStatus, DBCSSafeTrim, Trim, StrcaseStartsWith
+  cmsys/string.go  StripNoneBig5 (in place), DBCSNextStatus, DBCSStatus, DBCSSafeTrim, Trim, StrcaseStartsWith (ff0e11f)
   types/big5.go    TrimDBCS (in place)
   cmbbs/string.go  SubjectEx
 Same conventions as Model/C18.lean. Functions that write into their argument return the buffer afterwards too.
@@ -200,10 +200,28 @@ def trim (s : List Nat) : M (List Nat) := do
   let b ← cstrToBytes s
   pure (trimRightSp b)
 
-/-- `types.TrimDBCS`: (result, theCstr afterwards — the result aliases it and the cut byte is zeroed in place). -/
+/-- the walk of `types.TrimDBCS` (after fix 279321c): `for _, each := range theBytes { if isLead { isLead = false }
+else if each >= 0x80 { isLead = true } }`; the result is `isLead` when the loop ends. -/
+def leadWalk : List Nat → Bool → Bool
+  | [], isLead => isLead
+  | each :: rest, isLead => leadWalk rest (if isLead then false else if each ≥ 0x80 then true else isLead)
+
+/-- `types.TrimDBCS`: (result, theCstr afterwards — the result aliases it and the cut byte is zeroed in place).
+`theBytes[len(theBytes)-1] = 0`: for `len = 0` Go's index is −1 and panics (mirrored; unreachable, see `trimDBCS_total`). -/
 def trimDBCS (s : List Nat) : M (List Nat × List Nat) := do
   let b ← cstrToBytes s
-  let last ← idx b (b.length - 1)       -- len 0: Go indexes −1 and panics; `idx [] 0` faults as well
+  if leadWalk b false then do
+    let s' ← if b.length = 0 then .error .panic else setAt s (b.length - 1) 0
+    let b' ← slice b 0 (b.length - 1)
+    pure (b', s')
+  else pure (b, s)
+
+/-- HISTORICAL: the body of `types.TrimDBCS` before fix 279321c (it cut any last byte ≥ 0x80 and indexed
+`theBytes[-1]` on the empty string). Kept only for the before-fix witness theorem `trimDBCS_before_fix_witness`;
+the driver does not run it. -/
+def trimDBCSOld (s : List Nat) : M (List Nat × List Nat) := do
+  let b ← cstrToBytes s
+  let last ← idx b (b.length - 1)
   if last ≥ 0x80 then do
     let s' ← setAt s (b.length - 1) 0
     let b' ← slice b 0 (b.length - 1)
@@ -220,77 +238,25 @@ def SUBJECT_REPLY : Nat := Gen.C18Str.subjectReply
 def SUBJECT_FORWARD : Nat := Gen.C18Str.subjectForward
 def TTLEN : Nat := Gen.C18Str.ttlen
 
-def isCont (b : Nat) : Bool := 0x80 ≤ b && b ≤ 0xBF
+/-- the `for idx, each := range prefix` loop of `cmsys.StrcaseStartsWith` (after fix ff0e11f), entered with
+`prefix[idx:]` and `idx`. -/
+def startsWithLoop (str : List Nat) : List Nat → Nat → M Bool
+  | [], _ => pure true
+  | each :: rest, i => do
+    let c ← idx str i
+    if ccharTolower c ≠ ccharTolower each then pure false else startsWithLoop str rest (i + 1)
 
-/-- the admissible second byte of a three-byte encoding (no overlongs after E0, no surrogates after ED). -/
-def second3 (b0 b1 : Nat) : Bool :=
-  decide ((if b0 = 0xE0 then 0xA0 else 0x80) ≤ b1) && decide (b1 ≤ (if b0 = 0xED then 0x9F else 0xBF))
-
-/-- the admissible second byte of a four-byte encoding (no overlongs after F0, nothing above U+10FFFF after F4). -/
-def second4 (b0 b1 : Nat) : Bool :=
-  decide ((if b0 = 0xF0 then 0x90 else 0x80) ≤ b1) && decide (b1 ≤ (if b0 = 0xF4 then 0x8F else 0xBF))
-
-/-- `utf8.DecodeRune` on the head of a non-empty string: the number of bytes of a valid encoding there
-(RFC 3629: no overlongs, no surrogates, ≤ U+10FFFF), or `none` (Go: `RuneError, 1`). -/
-def utf8Width (s : List Nat) : Option Nat :=
-  match s with
-  | [] => none
-  | b0 :: r =>
-    if b0 < 0x80 then some 1
-    else if 0xC2 ≤ b0 ∧ b0 ≤ 0xDF then
-      match r with
-      | b1 :: _ => if isCont b1 then some 2 else none
-      | _ => none
-    else if 0xE0 ≤ b0 ∧ b0 ≤ 0xEF then
-      match r with
-      | b1 :: b2 :: _ => if second3 b0 b1 && isCont b2 then some 3 else none
-      | _ => none
-    else if 0xF0 ≤ b0 ∧ b0 ≤ 0xF4 then
-      match r with
-      | b1 :: b2 :: b3 :: _ => if second4 b0 b1 && isCont b2 && isCont b3 then some 4 else none
-      | _ => none
-    else none
-
-/-- what `bytes.ToLower` emits for the rune at the head of `s` (`s ≠ []`), and how many bytes it consumed.
-`bytes.ToLower` = `bytes.Map(unicode.ToLower, s)`: the input is read as UTF-8; an ASCII byte is lower-cased;
-every byte that does not start a valid encoding becomes U+FFFD (EF BF BD); U+0130 and U+212A lower-case to the
-ASCII letters `i` and `k`.  **Approximation (documented in checks/c18.py):** any other valid multi-byte rune is
-copied unchanged (the real function maps non-ASCII capitals to their small letters — other non-ASCII bytes,
-never ASCII and never U+FFFD; for the three prefixes SubjectEx tests the outcome is the same). -/
-def lowerRune (s : List Nat) : List Nat × Nat :=
-  match s with
-  | [] => ([], 0)
-  | b0 :: _ =>
-    match utf8Width s with
-    | none => ([0xEF, 0xBF, 0xBD], 1)
-    | some w =>
-      if w = 1 then ([ccharTolower b0], 1)
-      else if s.take w = [0xC4, 0xB0] then ([105], 2)
-      else if s.take w = [0xE2, 0x84, 0xAA] then ([107], 3)
-      else (s.take w, w)
-
-/-- the output of `bytes.ToLower`, rune by rune (a list of chunks; the result is their concatenation). -/
-def lowerChunks : Nat → List Nat → List (List Nat)
-  | 0, _ => []
-  | fuel + 1, s =>
-    match s with
-    | [] => []
-    | _ :: _ =>
-      let (out, w) := lowerRune s
-      out :: lowerChunks fuel (s.drop w)
-
-def goToLower (s : List Nat) : List Nat := (lowerChunks s.length s).flatten
-
-/-- `cmsys.StrcaseStartsWith`. -/
-def strcaseStartsWith (str pre : List Nat) : Bool := hasPrefix (goToLower str) (goToLower pre)
+/-- `cmsys.StrcaseStartsWith`: strncasecmp over the bytes, ASCII folding only. -/
+def strcaseStartsWith (str pre : List Nat) : M Bool :=
+  if str.length < pre.length then pure false else startsWithLoop str pre 0
 
 /-- the `if / else if / else if / else break` chain of `SubjectEx`: which prefix matched — its length and the
 subject type it sets — or `none` for `break`. -/
-def subjectStep (p : List Nat) : Option (Nat × Nat) :=
-  if strcaseStartsWith p STR_REPLY then some (STR_REPLY.length, SUBJECT_REPLY)
-  else if strcaseStartsWith p STR_FORWARD then some (STR_FORWARD.length, SUBJECT_FORWARD)
-  else if strcaseStartsWith p STR_LEGACY_FORWARD then some (STR_LEGACY_FORWARD.length, SUBJECT_FORWARD)
-  else none
+def subjectStep (p : List Nat) : M (Option (Nat × Nat)) := do
+  if ← strcaseStartsWith p STR_REPLY then pure (some (STR_REPLY.length, SUBJECT_REPLY))
+  else if ← strcaseStartsWith p STR_FORWARD then pure (some (STR_FORWARD.length, SUBJECT_FORWARD))
+  else if ← strcaseStartsWith p STR_LEGACY_FORWARD then pure (some (STR_LEGACY_FORWARD.length, SUBJECT_FORWARD))
+  else pure none
 
 /-- `if pTitle[0] == ' ' { pTitle = pTitle[1:] }` -/
 def skipBlank (p : List Nat) : M (List Nat) := do
@@ -301,8 +267,8 @@ def skipBlank (p : List Nat) : M (List Nat) := do
 def subjectLoop : Nat → List Nat → Nat → M (Nat × List Nat)
   | 0, _, _ => .error .diverge
   | fuel + 1, p, ty =>
-    if p.length = 0 then pure (ty, p) else
-    match subjectStep p with
+    if p.length = 0 then pure (ty, p) else do
+    match ← subjectStep p with
     | none => pure (ty, p)
     | some (n, ty') => do
       let p ← slice p n p.length                       -- pTitle = pTitle[len(prefix):]
